@@ -41,6 +41,7 @@ def main():
     build.VH = vh
     runner.build.VH = vh
     os.environ["LLVM_PROFILE_FILE"] = os.path.join(PROF, "run-%p-%m.profraw")
+    build.ENV["LLVM_PROFILE_FILE"] = os.environ["LLVM_PROFILE_FILE"]
     for pid in plist:
         ctx = props.Ctx(pid, tier, seed)
         try:
